@@ -10,5 +10,5 @@ if [ -d extract ] && [ -f extract/go.mod ]; then
 fi
 (cd lean && lake build)
 cp /repo/go.sum harness/go.sum
-(cd harness && go build -tags verif -o ../.build/waspharness .)
+(cd harness && go build -tags verif -o ../.build/waspharness . && go build -race -tags verif -o ../.build/waspharness-race .)
 echo setup ok
